@@ -26,14 +26,18 @@ LEAN_MODULES = ["StraxModel.Props.C18"]
 TRUSTED = [
     "modelled not verified: numba/numpy semantics of the jitted kernels (negative slice bounds, negative indexing, "
     "int(round(x)) = round-half-to-even, w.mean()/w.std()), int16/int32 wrap-around (amplitudes and indices stay tiny)",
-    "float32/float64 arithmetic is modelled by exact rationals; the harness only feeds dyadic baselines, noise levels and "
-    "thresholds (denominators <= 16, magnitudes < 2^10) for which every float operation in the code is exact",
     "baseline_rms is compared through the exact variance recovered from the stored float32 (k/n^2 with float32(sqrt(k/n^2)) == rms)",
 ]
 ASSUMPTIONS = [
+    "RESTRICTION OF THE QUANTIFIER: baselines, noise levels and thresholds are generated only where every float32/float64 operation of the "
+    "code is exact -- dyadic values with denominators <= 16 and magnitudes < 2^10 in the bulk components; float32-grid values (23-bit "
+    "fractions) x power-of-two noise factors in `find_hits/float32-grid-thresholds`. Products baseline_rms * min_height_over_noise that "
+    "are NOT exactly representable (e.g. rms = 1.3f, factor 3) are never generated: a change of float precision or a tolerance compare "
+    "that only acts there is invisible to this check. (Samples are integers, so only ceil(threshold) decides the hits.)",
     "records of one array share samples_per_record (enforced by the numpy dtype)",
-    "oracle domain for links/reduction: per channel the records are time-ordered and non-overlapping, extensions 0..samples_per_record, "
-    "samples beyond `length` are zero; outside that domain only model/implementation agreement is checked",
+    "oracle domain for links/reduction = `wellFormedPulses` (fragments 0,1,2,.. of non-overlapping pulses per channel, no cut-away fragments), "
+    "extensions 0..samples_per_record, samples beyond `length` zero; outside that domain (about 60 % of the record_links cases, which "
+    "enumerate cut-away fragments on purpose) only model/implementation agreement, error kinds and metadata are checked",
     "cut_baseline is not covered: with the installed numba it fails to compile for every input (int16 scalar has no .astype)",
 ]
 
@@ -694,6 +698,25 @@ def run(ctx):
                    rule=f"random pulse layouts: 1..3 channels (some unused), 1..3 pulses per channel, 1..3 fragments per pulse, records of {sprs} samples over {{0..3}} and of {big} samples over {{0..7}}, "
                         "thresholds scalar / per channel / noise-scaled (rms x hon, both dyadic) / both per channel",
                    branch=lambda c, o: c["kind"] + ":" + branch_hits(c, o))
+    # thresholds off the dyadic 1/16 grid but still exact in the code: float32 noise levels x power-of-two factors, float32 amplitudes
+    def f32q(x):
+        f = F(float(np.float32(x)))
+        return (f.numerator, f.denominator)
+    cases = []
+    for _ in range(ctx.pick(400, 4000)):
+        spr = rng.choice(sprs)
+        nch = rng.randint(1, 3)
+        rms_pool = tuple(f32q(rng.uniform(0.3, 3.2)) for _ in range(3))
+        recs = gen_layout(rng, spr, nch, rms_choices=rms_pool, alphabet=(0, 1, 2, 3, 4, 5), p_hot=0.6)
+        pw = [q(1, 2), q(1), q(2), q(4)]
+        if rng.random() < 0.5:
+            amp, hon = ["s", list(f32q(rng.uniform(0.5, 3.5)))], ["s", rng.choice(pw)]
+        else:
+            amp, hon = ["c", [list(f32q(rng.uniform(0.5, 3.5))) for _ in range(nch)]], ["c", [rng.choice(pw) for _ in range(nch)]]
+        cases.append(dict(spr=spr, records=recs, amp=amp, hon=hon))
+    ctx.correspond("find_hits/float32-grid-thresholds", cases, impl_hits, op_hits, oracle_hits, nontrivial=nontrivial_hits,
+                   rule="noise levels and amplitudes = float32(random decimal) (23-bit fractions, e.g. 1.3f), noise factors 1/2, 1, 2, 4: thresholds far from the 1/16 grid, every float operation of the code still exact",
+                   branch=branch_hits)
     # thresholds <= 0 and negative samples: the hit intervals, area, time, length are checked; height / max_time of hits whose
     # largest sample is <= 0 are the open finding probed above
     cases = []
@@ -763,7 +786,7 @@ def run(ctx):
     n_ex = len(cases)
     for _ in range(ctx.pick(1500, 15000)):
         s = rng.choice(sprs + [big])
-        cases.append(dict(spr=s, records=gen_layout(rng, s, rng.randint(1, 3), max_pulses=3, p_drop=rng.choice([0, 0.2, 0.5]), skip_channel_p=0.1)))
+        cases.append(dict(spr=s, records=gen_layout(rng, s, rng.randint(1, 3), max_pulses=3, p_drop=rng.choice([0, 0, 0, 0.2, 0.5]), skip_channel_p=0.1)))
     ctx.correspond("record_links", cases, impl_links, op_links, oracle_links, nontrivial=lambda c, o: "|" in o and any(x not in ("-1", "-") for x in o[3:].replace("|", ",").split(",")),
                    in_hyp=lambda c, o: well_formed(c),
                    rule=f"{n_ex} exhaustive layouts (<= 2 channels x <= 2 pulses of 1..3 fragments x every non-empty kept subset x gaps 0/1/one record x both tie orders) + random layouts with dropped fragments, 1..3 channels; oracle on well-formed pulse arrays (no cut-away fragments, counted as in_hypothesis), agreement on the rest; non-trivial = at least one link",
